@@ -390,7 +390,13 @@ def value_obj(v: dict):
     if k == "other":
         return _Other()
     if k == "tup":
-        return tuple(value_obj(x) for x in v["elts"])
+        elts = tuple(value_obj(x) for x in v["elts"])
+        if v.get("record") and elts:
+            # a tuple SUBCLASS instance (a namedtuple record, like the structseqs torch.max / torch.sort return)
+            import collections
+
+            return collections.namedtuple("Record", [f"f{i}" for i in range(len(elts))])(*elts)
+        return elts
     if k == "list":  # an unhashable non-array value
         return [1, 2]
     if k == "int":
